@@ -92,7 +92,7 @@ func (ic instrCompiler) ProcessLoadConstInstr(l ir.LoadConst) {
 	}
 	if !inlined {
 		ckidx := ic.QueueConstant(l.Kidx)
-		opcode = code.LoadConst(dst, code.KIndexFromInt(ckidx))
+		opcode = code.LoadConst(dst, kIndex(ckidx))
 	}
 	ic.Emit(opcode)
 }
@@ -139,7 +139,7 @@ func (ic instrCompiler) ProcessCallInstr(c ir.Call) {
 // ProcessMkClosureInstr compiles a MkClosure instruction.
 func (ic instrCompiler) ProcessMkClosureInstr(m ir.MkClosure) {
 	ckidx := ic.QueueConstant(m.Code)
-	opcode := code.LoadClosure(ic.codeReg(m.Dst), code.KIndexFromInt(ckidx))
+	opcode := code.LoadClosure(ic.codeReg(m.Dst), kIndex(ckidx))
 	ic.Emit(opcode)
 	// Now add the upvalues
 	for _, upval := range m.Upvalues {
@@ -334,4 +334,13 @@ func (p *CompilationPanic) Error() string {
 
 func newPanic(msg string) *CompilationPanic {
 	return &CompilationPanic{msg: msg}
+}
+
+// kIndex encodes a constant index, raising a compilation error if there are
+// too many constants.
+func kIndex(i int) code.KIndex {
+	if i < 0 || i > math.MaxUint16 {
+		panic(newPanic("too many constants (limit is 65536)"))
+	}
+	return code.KIndexFromInt(i)
 }
